@@ -45,7 +45,7 @@ def run(ctx):
 
 def run_(ctx, model):
     rng = gen.rng_for(ctx.seed, 'c12')
-    n_files = 50 if ctx.quick else 600
+    n_files = ctx.n(50, 600)
     ext = [2, 5, 63, 64, 65, 67, 68, 127, 128, 129, 4, 60]
     for k in range(n_files):
         if k % 7 == 6:   # unsupported input
